@@ -4,7 +4,7 @@ set -u
 PATCH="$(readlink -f "$1")"; shift
 HERE="$(cd "$(dirname "$0")/.." && pwd)"
 W="$(mktemp -d /tmp/vfmut.XXXXXX)"
-rsync -a --exclude .git --exclude htmlcov --exclude tests --exclude '__pycache__' /repo/ "$W/repo/"
+rsync -a --exclude .git --exclude htmlcov --exclude '__pycache__' /repo/ "$W/repo/"
 ( cd "$W/repo" && patch -p1 -s < "$PATCH" ) || { echo "PATCH FAILED"; rm -rf "$W"; exit 3; }
 rc=0
 for id in "$@"; do
